@@ -150,6 +150,18 @@ CLAIMED["C11"] = dict(
     note=NOTE_COMMON + "; scipy.fft.fftn/ifftn/rfftn/irfftn replaced by an exact DFT with SciPy's documented bin order and "
          "normalisation (native replays use the real SciPy); value-level checks only for axis lengths 1,2,3,4,6",
 )
+CLAIMED["C10"] = dict(
+    text="Field.to_file/from_file for .hdf5 run against an in-memory h5py stub (dtype-casting contract) with symbolic float "
+         "corners, symbolic real/complex values and symbolic validity bits, and with concrete integer-typed region corners x "
+         "integer / fractional float subregion corners; the reloaded field is compared attribute by attribute (corners, "
+         "names, units, tolerance factor, counts, boundary conditions, subregion names in order and their corners, labels, "
+         "unit incl. None, every value, every validity bit); the tree layout is inspected; legacy-layout trees are built "
+         "and read; every configuration is replayed natively through the real h5py where corner dtypes, bit patterns and "
+         "int/float32/complex dtypes are checked as well.",
+    ref="DESIGN.md section 2 / C10",
+    note=NOTE_COMMON + "; h5py replaced by an in-memory tree that returns what was written after casting to the dataset/attribute "
+         "dtype (int truncates); native replays and the dtype harness use the real h5py on scratch files",
+)
 PENDING_REASON = "check not built yet in this round (planned: DESIGN.md section 2); not claimed until it runs green"
 NA = {}
 
